@@ -181,13 +181,26 @@ func ctTraceCase(h *hctx, id int, pts map[int]ctPoint) bool {
 	_ = b.Close()
 
 	// classify the goroutines
+	// the cleaner is the goroutine that parks in WaitCond's cond.Wait; the Buffer's own mutex is the first lock the cleaner takes
+	// (Buffer.cleanup starts with it); any OTHER mutex locked in a method of Buffer is the cleaner's inner mutex - whatever the
+	// variables are called (a closure variable `mutex`, a field of a state struct, ...)
 	cleaner := -1
+	for _, e := range ev {
+		if e.pt.file == "sync.go" && e.pt.op == "Wait" {
+			cleaner = e.gid
+			break
+		}
+	}
+	bufExpr := ""
+	for _, e := range ev {
+		if e.gid == cleaner && e.pt.file == "buffer.go" && e.pt.op == "Lock" {
+			bufExpr = e.pt.expr
+			break
+		}
+	}
 	inner := map[int]bool{}
 	for _, e := range ev {
-		if e.pt.file == "sync.go" && e.pt.op == "Wait" && cleaner < 0 {
-			cleaner = e.gid
-		}
-		if e.pt.file == "buffer.go" && e.pt.op == "Lock" && e.pt.expr == "mutex.Lock" {
+		if bufExpr != "" && e.pt.file == "buffer.go" && e.pt.op == "Lock" && e.pt.expr != bufExpr {
 			inner[e.gid] = true
 		}
 	}
@@ -202,10 +215,10 @@ func ctTraceCase(h *hctx, id int, pts map[int]ctPoint) bool {
 		switch {
 		case e.gid == cleaner:
 			switch {
-			case e.pt.file == "buffer.go" && e.pt.op == "Lock" && e.pt.expr == "b.mutex.Lock" && !cleanerLocked:
+			case e.pt.file == "buffer.go" && e.pt.op == "Lock" && e.pt.expr == bufExpr && !cleanerLocked:
 				cleanerLocked = true
 				out = append(out, 10)
-			case e.pt.file == "buffer.go" && e.pt.op == "Lock" && e.pt.expr == "mutex.Lock":
+			case e.pt.file == "buffer.go" && e.pt.op == "Lock" && e.pt.expr != bufExpr:
 				out = append(out, 11)
 			case e.pt.file == "sync.go" && e.pt.op == "Wait":
 				out = append(out, 12)
@@ -214,9 +227,9 @@ func ctTraceCase(h *hctx, id int, pts map[int]ctPoint) bool {
 			switch {
 			case e.pt.file == "buffer.go" && e.pt.op == "recv":
 				out = append(out, 20)
-			case e.pt.file == "buffer.go" && e.pt.op == "Lock" && e.pt.expr == "b.mutex.Lock":
+			case e.pt.file == "buffer.go" && e.pt.op == "Lock" && e.pt.expr == bufExpr:
 				out = append(out, 21)
-			case e.pt.file == "buffer.go" && e.pt.op == "Lock" && e.pt.expr == "mutex.Lock":
+			case e.pt.file == "buffer.go" && e.pt.op == "Lock" && e.pt.expr != bufExpr:
 				out = append(out, 22)
 			}
 		default:
